@@ -81,6 +81,7 @@ func c14(c *Ctx) {
 	for n, v := range consts {
 		byVal[v] = n
 	}
+	c.checkTableConstructorAgree(map[string][]core.TableEntry{lazyName: lazy, preloadName: preload}, byVal)
 	wantClass := map[string]string{"Data_File": "file", "Data_Raw": "file", "Data_Directory": "map", "Data_HAMTShard": "map", "Data_Metadata": "map", "Data_Symlink": "map"}
 	// which package must provide the node per type (directory vs hamt vs generic link map are distinct types)
 	n141 := 0
@@ -943,4 +944,120 @@ func (c *Ctx) checkReaderErrors() {
 		}
 	}
 	r.Floor("R14.8", n, 40)
+}
+
+// checkTableConstructorAgree implements R14.9: a constructor does not refuse the data type the table routes to it. For
+// every (type K -> constructor F) entry of the two reifier tables: in F and the reader-package functions it calls
+// statically (depth 4), a comparison of the node's DataType with a constant C whose one edge ends in an error return must
+// not reject K: `DataType != C` rejecting with K != C, or `DataType == C` rejecting with K == C, contradicts the table.
+func (c *Ctx) checkTableConstructorAgree(tables map[string][]core.TableEntry, byVal map[int64]string) {
+	r := c.R
+	r.Rule("R14.9", "table and constructor agree on the data type: no function reached from the table entry of type K rejects (error return) on a DataType comparison that is true for K")
+	n := 0
+	rejects := func(b *ssa.BasicBlock) bool {
+		// the block (or the blocks it alone dominates, shallowly) returns a certainly non-nil error
+		for d, cur := 0, b; d < 3 && cur != nil; d++ {
+			if len(cur.Instrs) == 0 {
+				return false
+			}
+			if ret, ok := cur.Instrs[len(cur.Instrs)-1].(*ssa.Return); ok {
+				fn := cur.Parent()
+				ei := core.ErrResultIndex(fn.Signature)
+				return ei >= 0 && core.ErrKnownNonNil(core.ResolvedResults(ret)[ei], nil)
+			}
+			if len(cur.Succs) != 1 {
+				return false
+			}
+			cur = cur.Succs[0]
+		}
+		return false
+	}
+	var names []string
+	for tn := range tables {
+		names = append(names, tn)
+	}
+	sort.Strings(names)
+	seenPair := map[string]bool{}
+	for _, tn := range names {
+		for _, e := range tables[tn] {
+			if e.Fn == nil || e.Key == nil {
+				continue
+			}
+			k, ok := constant.Int64Val(e.Key)
+			if !ok {
+				continue
+			}
+			pair := fmt.Sprintf("%d/%s", k, core.FuncName(e.Fn))
+			if seenPair[pair] {
+				continue
+			}
+			seenPair[pair] = true
+			// functions reached
+			reach := map[*ssa.Function]int{e.Fn: 0}
+			queue := []*ssa.Function{e.Fn}
+			for len(queue) > 0 {
+				f := queue[0]
+				queue = queue[1:]
+				if reach[f] >= 4 {
+					continue
+				}
+				for _, oe := range c.G.Out[f] {
+					if oe.Kind != "static" {
+						continue
+					}
+					if rel, ok := c.P.PkgOf(oe.Callee); !ok || !core.ReaderPkgs[rel] {
+						continue
+					}
+					if _, seen := reach[oe.Callee]; !seen {
+						reach[oe.Callee] = reach[f] + 1
+						queue = append(queue, oe.Callee)
+					}
+				}
+			}
+			var bad []string
+			ncmp := 0
+			for f := range reach {
+				for _, b := range f.Blocks {
+					iff := core.BlockIf(b)
+					if iff == nil || len(b.Succs) != 2 {
+						continue
+					}
+					bo, ok := iff.Cond.(*ssa.BinOp)
+					if !ok || (bo.Op != token.EQL && bo.Op != token.NEQ) {
+						continue
+					}
+					var cv int64
+					var isDT bool
+					if kk, isK := core.ConstInt(bo.Y); isK && strings.Contains(c.accessPath(bo.X, 0), "DataType") {
+						cv, isDT = kk, true
+					} else if kk, isK := core.ConstInt(bo.X); isK && strings.Contains(c.accessPath(bo.Y, 0), "DataType") {
+						cv, isDT = kk, true
+					}
+					if !isDT {
+						continue
+					}
+					ncmp++
+					// the edge on which DataType == K
+					kEdge := 1 // false edge
+					if (bo.Op == token.EQL) == (cv == k) {
+						kEdge = 0
+					}
+					if rejects(b.Succs[kEdge]) {
+						tname := byVal[k]
+						if tname == "" {
+							tname = fmt.Sprint(k)
+						}
+						bad = append(bad, fmt.Sprintf("%s refuses %s at %s although the table routes that type to %s", core.FuncName(f), tname, c.P.Pos(bo.Pos()), core.FuncName(e.Fn)))
+					}
+				}
+			}
+			n++
+			tname := byVal[k]
+			if tname == "" {
+				tname = fmt.Sprint(k)
+			}
+			r.Check(len(bad) == 0, "R14.9", fmt.Sprintf("table-vs-constructor[%s->%s]", tname, core.FuncName(e.Fn)), c.P.Pos(e.Pos), fmt.Sprintf("%d DataType comparison(s) on the way, none refuses %s", ncmp, tname), uniqJoin(bad))
+		}
+	}
+	r.Floor("R14.9", n, 6)
 }
